@@ -578,11 +578,18 @@ class t2listing(object):
             self.skip_to_nonblank()
             tname = 'element'
             nelt_tables = 0
-        else: tname = last_tablename
+        else:
+            tname = last_tablename
+            # number of additional element tables up to the last table read:
+            ilast = self._tablenames.index(last_tablename)
+            nelt_tables = len([name for name in self._tablenames[:ilast + 1]
+                               if name.startswith('element')]) - 1
         while tname != tablename:
-            if tname == 'primary': keyword='_____'
-            else: keyword = '@@@@@'
-            self.skipto(keyword,0)
+            if tname == 'primary':
+                # no end marker after primary table- skip over its header,
+                # unless its rows have just been read:
+                if tname != last_tablename: self.skipto('_____',0)
+            else: self.skipto('@@@@@',0)
             tname = self.next_table_TOUGHplus()
             if tname == 'element':
                 nelt_tables += 1
